@@ -94,7 +94,7 @@ func genSched(rng *rand.Rand) sched {
 }
 
 func run(c *vf.Ctx) {
-	n := c.N(400, 30000)
+	n := c.N(400, 12000)
 	if only := os.Getenv("C31_ONLY"); only != "" {
 		var k int
 		fmt.Sscan(only, &k)
